@@ -63,6 +63,12 @@ class C03:
     def base_tree(self, extra=()):
         return [{"p": R, "k": "d", "m": 0o755}, {"p": LAYER, "k": "d", "m": 0o755},
                 {"p": LAYER + [b(b"keep")], "k": "f", "m": 0o644, "c": [7]},
+                # not environment directories, although their names start like them
+                {"p": LAYER + [b(b"env.d")], "k": "d", "m": 0o755},
+                {"p": LAYER + [b(b"env.d"), b(b"10-defaults.sh")], "k": "f", "m": 0o644, "c": [8]},
+                {"p": LAYER + [b(b"env.example")], "k": "d", "m": 0o755},
+                {"p": LAYER + [b(b"envs")], "k": "d", "m": 0o755},
+                {"p": LAYER + [b(b"env.sh")], "k": "f", "m": 0o644, "c": [9]},
                 {"p": R + [b(b"sibling")], "k": "d", "m": 0o755},
                 {"p": R + [b(b"sibling"), b(b"env")], "k": "d", "m": 0o755},
                 {"p": R + [b(b"sibling"), b(b"env"), b(b"Z.override")], "k": "f", "m": 0o644, "c": [1]}] + list(extra)
